@@ -126,7 +126,10 @@ def add_room(
         solution = pfba(model)
 
     prob = model.problem
-    variable = prob.Variable("room_old_objective", ub=solution.objective_value)
+    # The variable only exposes the value of the old objective (as in MOMA). It
+    # must not be capped: `solution.objective_value` is the total flux for a pFBA
+    # reference and an unreachable value for a knock-out of a minimization.
+    variable = prob.Variable("room_old_objective")
     constraint = prob.Constraint(
         model.solver.objective.expression - variable,
         ub=0.0,
